@@ -81,6 +81,7 @@ class Item:
     def __init__(self, spec):
         self.spec = spec
         self.name = spec.get("name")
+        self.own_list = None      # a hook that answers with a list hands out ITS list, the same one every time
 
     def __repr__(self):
         return "<I%s>" % self.name
@@ -124,7 +125,9 @@ def _unwrap_item(it):
     if u == "tuple":
         return tuple(realize(c) for c in s["ch"])
     if u == "list":
-        return [realize(c) for c in s["ch"]]
+        if it.own_list is None:
+            it.own_list = [realize(c) for c in s["ch"]]
+        return it.own_list
     if u == "empty":
         return ()
     if u == "emptylist":
@@ -237,6 +240,20 @@ def run_c10(req):
         res["leaf"] = describe_leaf(st.leaf)
         res["error"] = None if st.error is None else repr(st.error)[:400]
         res["root_ok"] = st.root is root
+        # what the hooks handed out is theirs: it must come back unchanged, and a second extraction of the same tree (same
+        # item objects, same hook answers) must give the same result
+        for it in list(ITEMS.values()):
+            if it.own_list is not None and it.own_list != [realize(c) for c in it.spec["ch"]]:
+                res["hook_result_modified"] = repr(it)
+        if st.error is None and "raised" not in res and len(LOG) < 5000:
+            try:
+                st_again = extract(root, with_contexts=req.get("with_contexts", False))
+                again = ([f.funcname for f in st_again.frames], describe_leaf(st_again.leaf), repr(st_again.error))
+                first = ([f.funcname for f in st.frames], res["leaf"], "None")
+                if again != first:
+                    res["second_extraction_differs"] = {"first": first, "second": again}
+            except BaseException as ex:
+                res["second_extraction_differs"] = {"raised": repr(ex)}
     res["warnings"] = [str(x.message)[:200] for x in w]
     res["nlog"] = len(LOG)
     ELAB.clear()
